@@ -141,6 +141,7 @@ func getSession() *session {
 }
 
 var cacheMutations atomic.Int64
+var cacheMutText atomic.Value // first query text whose cached AST was edited
 
 var scriptCache sync.Map // text → *logql_parser.LogQLScript | error
 
@@ -212,6 +213,7 @@ func runImpl(text string, p Params, db *chsim.DB, cluster bool, fresh bool) (out
 			if script.String() != before {
 				scriptCache.Delete(text)
 				cacheMutations.Add(1)
+				cacheMutText.CompareAndSwap(nil, text)
 			}
 		}()
 	}
